@@ -270,6 +270,16 @@ def guard_program(rng):
     fns.append(("loopguard", "fn loopguard(n: int) -> int {\n    let mut i: int = 0\n    while (< i n) {\n        if (> i 2) {\n            if (== i %d) { return i }\n        } else {\n            (println i)\n        }\n        set i (+ i 1)\n    }\n    return -1\n}\n" % rng.randint(3, 6)))
     for n in (0, 2, 4, 9):
         calls.append(("loopguard", "(loopguard %d)" % n))
+    # void functions whose last statement is a conditional with a return in one arm: the path that skips the return must come
+    # back to the caller (the implicit return is not the last emitted byte)
+    fns.append(("vnote1", "fn vnote1(c: bool) -> void {\n    (println \"n1\")\n    if c {\n        return\n    }\n}\n"))
+    fns.append(("vnote2", "fn vnote2(c: bool) -> void {\n    if c {\n        (println \"n2\")\n    } else {\n        return\n    }\n}\n"))
+    fns.append(("vnote3", "fn vnote3(c: bool, d: bool) -> void {\n    (println \"n3\")\n    if c {\n        if d {\n            return\n        }\n    } else {\n        if d {\n            (println \"n3d\")\n        } else {\n            return\n        }\n    }\n}\n"))
+    fns.append(("vnote4", "fn vnote4(n: int) -> void {\n    let mut i: int = 0\n    while (< i n) {\n        if (== i 2) {\n            return\n        }\n        set i (+ i 1)\n    }\n}\n"))
+    fns.append(("vback", "fn vback(c: bool, d: bool) -> int {\n    (vnote1 c)\n    (println \"b1\")\n    (vnote2 c)\n    (println \"b2\")\n    (vnote3 c d)\n    (println \"b3\")\n    (vnote4 1)\n    (vnote4 5)\n    return %d\n}\n" % rng.randint(1, 99)))
+    for a in ("true", "false"):
+        for b in ("true", "false"):
+            calls.append(("vback", "(vback %s %s)" % (a, b)))
     return shadowed(fns, calls)
 
 
